@@ -218,7 +218,13 @@ func (m *FloodSub) execPublish(prevHopPeerID peer.ID, pubMsg *publishChMsg) {
 		}
 
 		peer, ok := m.peers[pid]
-		if ok {
+		if ok && peer.ctx == nil {
+			// session added but not started by Execute yet: queue without blocking
+			select {
+			case peer.packetCh <- pkt:
+			default:
+			}
+		} else if ok {
 			peer.writePacket(pkt)
 		}
 	}
